@@ -59,7 +59,7 @@ def generate(seed, tier="quick"):
     for j in range(ncv):
         ck = r.choice(["forward", "call", "put", "logfwd"]) if k == 1 else r.choice(["call", "put"])
         cst = [round(x0 * r.uniform(0.7, 1.3), 6) for _ in range(k)]
-        controls.append({"kind": ck, "strikes": cst, "notional": r.choice([1.0, 1.0, 2.0]),
+        controls.append({"kind": ck, "strikes": cst, "notional": r.choice([1.0, 1.0, 2.0, 2.0, 250000.0]),
                          "price_mode": r.choice(["sample_mean", "exact_plus_noise", "off"])})
     warm = r.choice([None, None, None, "more", "fewer", "same"])
     warm_n = None if warm is None else {"more": n + r.choice([1, 3, 17]), "fewer": max(1, n - r.choice([1, 2, 5])), "same": n}[warm]
@@ -344,22 +344,31 @@ def execute(wd, sc):
                 p = np.array([float(np.atleast_1d(pp)[comp]) for pp in cv_prices])
                 Sx = np.atleast_2d(np.cov(Xc.T, bias=True))
                 Sxy = np.array([np.mean((Xc[:, j] - Xc[:, j].mean()) * (y - y.mean())) for j in range(Xc.shape[1])])
-                well = np.amin(np.abs(Sx)) >= 1e-9 and np.linalg.cond(Sx) <= 1e8
+                # the regression is equivariant under a rescaling of the controls: it is solved here for the STANDARDISED
+                # controls (correlation matrix), so that controls of very different scales (a control with a large
+                # notional next to a unit one) are still decided; the library works on the unscaled covariance in double
+                # precision: its result is trusted to cond(Sx) * eps only
+                sd = np.sqrt(np.clip(np.diag(Sx), 0.0, None))
+                cond_x = np.linalg.cond(Sx) if np.all(sd > 0) else np.inf
+                R = Sx / np.outer(sd, sd) if np.all(sd > 0) else None
+                well = (np.amin(np.abs(Sx)) >= 1e-9 and R is not None and np.linalg.cond(R) <= 1e6 and cond_x <= 1e12)
                 raw_var = y.var()
                 adj_rows = getattr(getattr(stats, "_payoff_statistics_with_cv", None), "stats", None)
                 if well:
-                    b = np.linalg.lstsq(Sx, Sxy, rcond=None)[0]
+                    b = np.linalg.lstsq(R, Sxy / sd, rcond=None)[0] / sd
                     adj = y - (Xc - p) @ b
                     exp_price = adj.mean()
-                    scale = float(np.max(np.abs(y))) + float(np.max(np.abs(Xc))) + 1e-300
-                    if not np.isclose(got_cv[comp], exp_price, rtol=1e-7, atol=1e-9 * scale):
+                    scale = float(np.max(np.abs(y))) + float(np.max(np.abs((Xc - p) * b))) + 1e-300
+                    if cond_x > 1e8:
+                        wd.probes["c07.controls_of_very_different_scales"] += 1
+                    if not np.isclose(got_cv[comp], exp_price, rtol=1e-7, atol=(1e-9 + 1e3 * cond_x * 2.2e-16) * scale):
                         V.append({"sig": f"C07.cv|control-variate price is not mean(Y - b*(X - price_X)) with the regression b*|{cls}",
                                   "oracle": "cv", "detail": {"component": comp, "got": float(got_cv[comp]),
                                                              "expected": float(exp_price), "b_star": b.tolist()}})
                     exp_err = adj.std(ddof=1) / np.sqrt(n)
                     # absolute tolerance relative to the data scale: with a (nearly) perfectly replicating control the
                     # adjusted samples are constant up to rounding and their spread is numerical noise
-                    if not np.isclose(got_cv_err[comp], exp_err, rtol=1e-6, atol=1e-9 * scale):
+                    if not np.isclose(got_cv_err[comp], exp_err, rtol=1e-6, atol=(1e-9 + 1e3 * cond_x * 2.2e-16) * scale):
                         V.append({"sig": f"C07.cv|control-variate error is not the standard error of the adjusted samples|{cls}",
                                   "oracle": "cv", "detail": {"component": comp, "got": float(got_cv_err[comp]),
                                                              "expected": float(exp_err)}})
